@@ -17,7 +17,7 @@ import time
 
 VERIF = os.path.dirname(os.path.dirname(os.path.abspath(__file__)))
 PY = os.path.join(VERIF, ".venv", "bin", "python")
-PLAIN_PY = "/venv/bin/python"
+PLAIN_PY = PY  # plain run (no tracer, solver not in the loop); needs z3 importable for harness modules
 NCPU = int(os.environ.get("VK_NCPU", str(os.cpu_count() or 4)))
 
 DEFAULTS = {
@@ -69,7 +69,7 @@ def _launch(job, tier, scratch):
     p = subprocess.Popen(cmd, cwd=VERIF, env=env, stdout=log, stderr=subprocess.STDOUT,
                          start_new_session=True)
     job.update(proc=p, out=out, tickfile=tickfile, dir=jd, t0=time.time(),
-               wall_limit=timeout * 4 + 180, timeout=timeout, log=log)
+               wall_limit=(timeout * 4 + 180) if job["kind"] == "ch" else (timeout * 1.5 + 60), timeout=timeout, log=log)
 
 
 def _killpg(p):
